@@ -9,6 +9,7 @@ CONSTANTS
   FixLock = FALSE
   FixInit = FALSE
   FixIsSet = FALSE
+  DetTime = FALSE
   Locked = TRUE
 INVARIANT NoError
 CHECK_DEADLOCK FALSE
